@@ -126,6 +126,10 @@ func cmdCheck(args []string) int {
 	if tier == "thorough" {
 		cfg.TimeoutMs = 120000
 		cfg.Thorough = true
+		xcheckSeed = seed
+		if b := os.Getenv("VERIF_XCHECK"); b != "" {
+			xcheckBudget, _ = strconv.Atoi(b)
+		}
 	}
 	// generate everything (cheap), solve only what belongs to the property
 	want := func(ob *Oblig) bool {
@@ -475,8 +479,10 @@ func writeEvidence(id, tier string, seed int, obligs []*Oblig, funcs []string, g
 		"go/ssa and go/types (golang.org/x/tools v0.29.0) read the source as the compiler does",
 		"integers are mathematical (no overflow: offsets and lengths stay far below 2^63); uint8 arithmetic wraps",
 		"trusted contracts of external functions listed in coverage.trusted_base",
-		"an obligation is accepted when one solver answers unsat (thorough: all three must agree)",
+		"an obligation is accepted when one solver answers unsat; in the thorough tier the clauses that state the property (not the safety and frame obligations) are re-decided standalone by z3 4.8.12, z3 5.1.0 and cvc5 1.0 and must agree, up to a budget of VERIF_XCHECK (default 600) obligations chosen by name hash and VERIF_SEED; coverage.cross_checked says how many were",
+		"a check discharges the obligations tagged with its property and assumes the clauses of the other claimed properties on the same functions; those are discharged by the checks of their own properties (tools/runall.sh runs all). A clause with explicit property tags is a hypothesis only for later clauses that share a tag; a clause listed as a known finding is never a hypothesis",
 	}
+	ev.Coverage["cross_checked"] = XcheckDone
 	if aux != nil {
 		ev.Assumptions = append(ev.Assumptions, aux.assumptions...)
 	}
